@@ -694,6 +694,118 @@ func (h *h2Hist) opAdvance() {
 	}
 }
 
+// ---- directed refresh-straddle macro (C07, C06): a refresh at mid-life, a probe between the old and the
+// new expiry, a probe after the new expiry.  All requests carry valid credentials.
+
+func (h *h2Hist) goodCred(user string) h2Cred {
+	nonce, _ := h.w.srv.nonceHash.Generate()
+	return h2Cred{mi: true, nonce: true, nonceOK: true, realm: true, uname: true, known: true, macOK: true, user: user, nonceVal: nonce, pass: h2Users[user]}
+}
+
+func (h *h2Hist) goodReq(c *h2Client, m stun.Method, word string, tail string, attrs ...stun.Setter) {
+	k := c.key()
+	user := h.owner[k]
+	if user == "" {
+		user = "alice"
+	}
+	cr := h.goodCred(user)
+	h.tid++
+	raw := h.build(stun.NewType(m, stun.ClassRequest), h.tid, &cr, attrs...)
+	h.do(strings.TrimSpace(fmt.Sprintf("m %s %d %s %d %s %s", k, len(raw), word, h.tid, cr, tail)), func() { c.sendRaw(raw) })
+}
+
+func (h *h2Hist) sleepOp(dt time.Duration) {
+	if dt <= 0 {
+		return
+	}
+	h.do(fmt.Sprintf("adv %d", int64(dt)), func() { time.Sleep(dt) })
+}
+
+func (h *h2Hist) opStraddle(c *h2Client) {
+	a := h.live(c)
+	if a == nil || c.conn != nil && false {
+		return
+	}
+	if _, isTCP := a.RelayAddr.(*net.TCPAddr); isTCP {
+		return
+	}
+	relay, _ := a.RelayAddr.(*net.UDPAddr)
+	if relay == nil {
+		return
+	}
+	// a peer of the allocation's family that the permission handler accepts, and its sibling port
+	p, sib := h.peers[0], h.peers[1]
+	if relay.IP.To4() == nil {
+		p, sib = h.peers[4], h.peers[5]
+	}
+	srv := h.w.srv
+	num := uint16(0x4000 + h.rng.Intn(3))
+	for _, cb := range a.ListChannelBindings() {
+		if u, _ := cb.Peer.(*net.UDPAddr); u != nil && u.IP.Equal(p.IP) && u.Port == p.Port {
+			num = uint16(cb.Number)
+		}
+	}
+	kind := h.rng.Intn(4)
+	T := srv.permissionTimeout
+	if kind == 2 {
+		T = srv.channelBindTimeout
+	}
+	if kind == 3 {
+		T = srv.allocationLifetime
+	}
+	if T > 20*time.Minute || T < 4*time.Second {
+		return
+	}
+	keep := func() { // keep the allocation itself alive while the entry under test ages
+		if kind != 3 {
+			h.goodReq(c, stun.MethodRefresh, "refresh", "lt=3600 fam=-", proto.Lifetime{Duration: time.Hour})
+		}
+	}
+	pa := proto.PeerAddress{IP: p.IP, Port: p.Port}
+	establish := func() {
+		switch kind {
+		case 0:
+			h.goodReq(c, stun.MethodCreatePermission, "perm", canonAddr(p), pa)
+		case 1, 2:
+			h.goodReq(c, stun.MethodChannelBind, "bind", fmt.Sprintf("num=%d peer=%s", num, canonAddr(p)), proto.ChannelNumber(num), pa)
+		case 3:
+			h.goodReq(c, stun.MethodRefresh, "refresh", "lt=- fam=-")
+			h.goodReq(c, stun.MethodCreatePermission, "perm", canonAddr(p), pa)
+		}
+	}
+	probes := func() {
+		k := c.key()
+		rs := canonAddr(relay)
+		// client -> peer by Send indication (needs the permission), and by ChannelData (needs the binding)
+		d := h.payload()
+		h.tid++
+		raw := h.build(stun.NewType(stun.MethodSend, stun.ClassIndication), h.tid, nil, proto.Data(d), proto.PeerAddress{IP: sib.IP, Port: sib.Port})
+		h.do(fmt.Sprintf("m %s %d send %s %s", k, len(raw), vhHex(d), canonAddr(sib)), func() { c.sendRaw(raw) })
+		if kind == 1 || kind == 2 {
+			cd := proto.ChannelData{Number: proto.ChannelNumber(num), Data: h.payload()}
+			cd.Encode()
+			h.do(fmt.Sprintf("m %s %d cdata %s", k, len(cd.Raw), vhHex(cd.Raw)), func() { c.sendRaw(cd.Raw) })
+		}
+		// peer -> client from the bound address and from its sibling port (same IP: permission only)
+		for _, from := range []*net.UDPAddr{p, sib} {
+			sock := h.w.peerUDPSock(from.IP, from.Port)
+			d := h.payload()
+			h.do(fmt.Sprintf("pdata %s %s %s", rs, canonAddr(from), vhHex(d)), func() { _, _ = sock.WriteTo(d, relay) })
+		}
+	}
+	h.vt.Stat(fmt.Sprintf("straddle.kind%d", kind))
+	keep()
+	establish()
+	h.sleepOp(T/2 + 3*time.Millisecond)
+	keep()
+	establish() // the refresh at mid-life
+	h.sleepOp(T/2 + time.Second)
+	probes() // the original expiry has passed; the refreshed entry has not
+	keep()
+	h.sleepOp(T/2 + time.Second)
+	probes() // now the refreshed entry has expired too (unless kept alive by another path)
+}
+
 func (h *h2Hist) opRelayErr() {
 	var relays []string
 	for r := range h.relays {
@@ -812,9 +924,10 @@ func runH2History(t *testing.T, vt *vhT, seed int64, nOps int) {
 			vt.Obs("ok")
 		}
 		h.cpool = []*net.UDPAddr{{IP: net.ParseIP("10.0.0.2").To4(), Port: 4000}, {IP: net.ParseIP("10.0.0.2").To4(), Port: 4001},
-			{IP: net.ParseIP("10.0.0.3").To4(), Port: 4000}, {IP: net.ParseIP("fd00::2"), Port: 4000}}
+			{IP: net.ParseIP("10.0.0.3").To4(), Port: 4000}, {IP: net.ParseIP("fd00::2"), Port: 4000}, {IP: net.ParseIP("fd00::3"), Port: 4000}}
 		h.peers = []*net.UDPAddr{{IP: net.ParseIP("10.0.0.9").To4(), Port: 9000}, {IP: net.ParseIP("10.0.0.9").To4(), Port: 9001},
-			{IP: net.ParseIP("10.0.0.8").To4(), Port: 9000}, {IP: net.ParseIP("10.9.9.9").To4(), Port: 9000}, {IP: net.ParseIP("fd00::9"), Port: 9000}}
+			{IP: net.ParseIP("10.0.0.8").To4(), Port: 9000}, {IP: net.ParseIP("10.9.9.9").To4(), Port: 9000}, {IP: net.ParseIP("fd00::9"), Port: 9000},
+			{IP: net.ParseIP("fd00::9"), Port: 9001}, {IP: net.ParseIP("fd00::8"), Port: 9000}}
 		for _, p := range h.peers {
 			w.peerUDPSock(p.IP, p.Port)
 			w.peerListener(p.IP, p.Port)
@@ -871,8 +984,14 @@ func runH2History(t *testing.T, vt *vhT, seed int64, nOps int) {
 				h.opPeerConn()
 			case r < 91:
 				h.opPipe()
-			case r < 97:
+			case r < 95:
 				h.opAdvance()
+			case r < 97:
+				if has && !h.tcpMode {
+					h.opStraddle(c)
+				} else {
+					h.opAdvance()
+				}
 			case r < 98:
 				h.opRelayErr()
 			default:
